@@ -69,12 +69,16 @@ def main():
                 out["demo_with_change_tail"] = "\n".join([l for l in o.splitlines() if "---" in l or "demo" in l.lower() or "FAIL" in l][:6])
                 unplace()
             fired = {}
-            for p in PROPS:
-                rc, o = sh(f"/verif/bin/spokcheck -property {p} -repo {wt} -no-evidence", wt, timeout=300)
-                if rc != 0:
-                    rules = sorted(set(re.findall(r"violated: (\S+)", o)))
-                    other = [l for l in o.splitlines() if l.startswith(("UNDECIDED", "ANCHOR-LOST", "CHECKER-", "VACUOUS"))]
-                    fired[p] = {"exit": rc, "rules": rules, **({"notes": other[:4]} if other and not rules else {})}
+            rc, o = sh(f"/verif/bin/spokcheck -property all -repo {wt} -no-evidence", wt, timeout=1800)
+            cur = None
+            for l in o.splitlines():
+                m = re.match(r"== (C\d+)", l)
+                if m: cur = m.group(1)
+                m = re.match(r"\s+violated: (\S+)", l)
+                if m: fired.setdefault(cur, {"exit": 1, "rules": []})["rules"].append(m.group(1))
+                m = re.match(r"(UNDECIDED|VACUOUS|CHECKER-ERROR|CHECKER-PANIC) property=(C\d+)", l)
+                if m: fired.setdefault(m.group(2), {"exit": 2, "rules": []}).setdefault("notes", []).append(l[:200])
+            for v in fired.values(): v["rules"] = sorted(set(v["rules"]))
             out["spokcheck_reports"] = fired
     finally:
         subprocess.call(["git", "-C", "/repo", "worktree", "remove", "--force", wt], stdout=subprocess.DEVNULL, stderr=subprocess.DEVNULL)
